@@ -1,6 +1,6 @@
 import Driver.Util
-import LiquidVerif.Model.BoolParse
-open Lean LiquidVerif.Value LiquidVerif.Cond LiquidVerif.BoolParse
+import LiquidVerif.Model.CondParse
+open Lean LiquidVerif.Value LiquidVerif.Cond LiquidVerif.CondParse
 
 namespace Driver.C12
 
